@@ -396,7 +396,7 @@ PLog(g, i, mid) == {r \in plog[g] : r.i = i /\ r.mid = mid}
 Subscribed(c, ts) == IF Src(c).star THEN ts ELSE IF Src(c).all THEN {t \in ts : ~Hidden(t)} ELSE ts \cap SubTopics(c)
 
 DeliveryFaults(f, srcs, newid) ==
-  LET full == {i \in 1..Len(srcs) : srcs[i].some}
+  LET full == {i \in 1..Len(srcs) : Got(srcs[i]) = "all"}     \* an ephemeral source may contribute nothing
       sync == {i \in full : Eph(<<f, i>>) = 0}
       Ents(i) == {srcs[i].e[t] : t \in Dom(srcs[i].e)}
       ids  == UNION {{e[1] : e \in Ents(i)} : i \in sync}
@@ -421,7 +421,7 @@ DeliveryFaults(f, srcs, newid) ==
       \cup (IF \E i \in full \ sync : ~Exact(i) THEN {"C05_EphComplete"} ELSE {})
       \cup (IF \E i \in full : \E t \in Dom(srcs[i].e) : t \notin Subscribed(<<f, i>>, Dom(srcs[i].e)) THEN {"C02_Hidden"} ELSE {})
 
-Pairs(srcs) == UNION {{<<i, t>> : t \in Dom(srcs[i].e)} : i \in {j \in 1..Len(srcs) : srcs[j].some}}
+Pairs(srcs) == UNION {{<<i, t>> : t \in {u \in Dom(srcs[i].e) : srcs[i].e[u] # NoE}} : i \in {j \in 1..Len(srcs) : srcs[j].some}}
 
 \* the trailing poll(0) after a complete set (zeromq.py:889), then the return path (915-937)
 RFinal(f, phase, back) ==
@@ -765,6 +765,18 @@ NextZL ==
           ELSE \E f \in Filters : StepTO(f)
 SpecZL == Init /\ [][NextZL]_vars
 
+(* Prompt scheduling with fairness (liveness: C03_Complete, C06): strong fairness per filter - a filter's timeout is
+   disabled while a neighbour sits at an internal control point, so weak fairness would let one filter's timeouts
+   starve another's - and weak fairness for the network.  No faults. *)
+PFilter(f) == IF GInt THEN IntStep(f) ELSE IF GBusy THEN StepNT(f) ELSE StepTO(f)
+PNet       == ~GInt /\ GBusy /\ Net
+NextFair   == (\E f \in Filters : PFilter(f)) \/ PNet
+FairPrompt == Init /\ [][NextFair]_vars /\ (\A f \in Filters : SF_vars(PFilter(f))) /\ WF_vars(PNet)
+
+(* The same with faults: a killed filter is eventually restarted, a stalled one eventually resumes. *)
+FairFault == Init /\ [][NextFair \/ (~GInt /\ Fault)]_vars
+               /\ (\A f \in Filters : SF_vars(PFilter(f)) /\ WF_vars(Restart(f)) /\ WF_vars(Resume(f))) /\ WF_vars(PNet)
+
 -----------------------------------------------------------------------------
 (* Properties *)
 NoViolation == bad = {}
@@ -776,6 +788,17 @@ C03 == "C03_Prefix" \notin bad
 C03_AllDelivered == \A f \in Filters : C03Applies(f) => ndeliv[f] = Cardinality(ExpIds(f))
 C03_Complete == <>[]C03_AllDelivered
 C04_Bounded == \A c \in Conns : ahead[c] <= 9
+C04_Tight(n) == \A c \in Conns : ahead[c] <= n        \* the bound the design actually achieves (per configuration)
+C04_Tight1 == C04_Tight(1)
+C04_Tight2 == C04_Tight(2)
+C04_Tight3 == C04_Tight(3)
+C04_Tight4 == C04_Tight(4)
+C04_Tight5 == C04_Tight(5)
+C04_Tight6 == C04_Tight(6)
+\* C06: no deadlock / self-healing - whatever single fault happens, every origin eventually hands off all its frames
+\* (a publisher stuck forever behind a dead or confused consumer never does) and everything is alive again
+C06_Drained == \A g \in Filters : (IsOrigin(g) => pc[g] = "gen" /\ oseq[g] > MaxSeq) /\ Alive(g)
+C06_Heals == <>[]C06_Drained
 
 \* no filter dies of a RuntimeError raised by the protocol code itself
 NoCrash == \A f \in Filters : pc[f] # "crashed"
